@@ -206,3 +206,46 @@ PROPS['C15'] = dict(
     modelled='consume2, itertools.Take, range-over-func',
     assumptions=['each implementation call runs under a 4 s wall-clock budget; exceeding it is reported as a failure to return'],
 )
+
+import c05stage
+
+def _race_stage(prop, tier, seed, workdir, env, root, build, repo, **kw):
+    """the uninstrumented code under Go's race detector, driven by the concurrent histories (supporting evidence)"""
+    import subprocess, os
+    env2 = dict(env, CGO_ENABLED='1')
+    exe = os.path.join(workdir, 'sqdrive-race')
+    p = subprocess.run(['go', 'build', '-race', '-tags', 'verif', '-o', exe, './cmd/sqdrive'], cwd=os.path.join(root, 'harness'), env=env2,
+                       stdout=subprocess.PIPE, stderr=subprocess.STDOUT, text=True)
+    if p.returncode != 0:
+        return {'notes': ['race detector build not available: ' + p.stdout[-200:]]}
+    out = []
+    viol = []
+    for pr in ('C05', 'C02'):
+        q = subprocess.run([exe, 'gen', '-prop', pr, '-tier', 'quick', '-seed', str(seed + 7)], stdout=subprocess.PIPE, stderr=subprocess.PIPE, text=True, env=env2)
+        if 'DATA RACE' in q.stderr:
+            path = c05stage.write_replay(root, prop, 'race', {'property': prop, 'kind': 'failing-input', 'what': 'data race reported by the Go race detector',
+                                          'generator': 'sqdrive gen -prop %s -seed %d (built with -race)' % (pr, seed + 7), 'report': q.stderr[:3000]})
+            viol.append((path, True, 'data race reported by the Go race detector'))
+            break
+        out.append(len(q.stdout.split('\n')))
+    return {'violations': viol, 'coverage': {'race_detector_cases': sum(out)}, 'notes': ['-race stress: %d cases, %d reports' % (sum(out), len(viol))]}
+
+PROPS['C05'] = dict(
+    theorem='C05_invariant, C05_return_contract, C05_deadlock_free, C05_can_complete, C05_acceptor_sound, C05_sequential_answers (Properties/C05.v)',
+    functional=True,
+    level_text='Theorems over the memoizer as a transition system with one producer and any number of readers issuing any wait calls, for every interleaving: lock discipline '
+               '(every access to data/maxLength/done by the lock holder), parked threads\' wake-up conditions are false (no lost wake-up), every return satisfies the wait contract '
+               '(hence sequential answers by Layer C), deadlock freedom, and every pending call can still complete (lexicographic progress measure). Tied to numberspec.go of all '
+               'three versions by exhaustive and random schedule exploration of the real code under a deterministic scheduler (deadlock / wrong answer / panic detection) with '
+               'sampled event traces validated by the extracted, proved-sound acceptor; plus concurrent read histories on the uninstrumented code (answers = sequential) and a '
+               'race-detector run.',
+    level_note='Partial by nature: fairness of Go\'s scheduler and the Go memory model are not modelled; "no data race" is the model-level lock discipline plus the race detector run. '
+               'Trace validation covers programs of At calls (one wait per call); richer operations are covered by answer comparison only.',
+    rule='cases: (a) concurrent histories: 2-4 goroutines with random read histories (C04 generator) on one shared Number, every goroutine must obtain its sequential answers; '
+         '(b) schedule exploration: all schedules (DFS, up to a budget) of 2-reader x 1-call programs over sources of 0/1/99/100/101/150 digits and an endless one, DFS + random walks '
+         'for 3-reader and multi-call programs; a sample of event traces per configuration validated against Conc.step. Non-trivial: every concurrent case.',
+    modelled='sync.Mutex, sync.Cond (no spurious wake-ups), go statement; scheduler fairness and the memory model are not modelled',
+    assumptions=['the instrumentation rewrites sync.Mutex, *sync.Cond, sync.NewCond, go result.run() and m.iter() in a temporary copy of numberspec.go and refuses any other synchronisation construct'],
+    stages=[c05stage.stage, _race_stage],
+)
+PROPS['C06']['stages'] = [c05stage.stage]
